@@ -144,6 +144,7 @@ type BuildOpts struct {
 type BuildResult struct {
 	ParseErr error
 	Err      error
+	Sink     *Sink // (late writes are asked of it after the bubble has ended)
 	Bytes    []byte
 	Trace    []int
 	Fired    int
@@ -196,6 +197,8 @@ func PackageInfo(info *nfpm.Info, o BuildOpts) BuildResult {
 	sink := NewSink(o.Fault)
 	sink.Yield = o.Yield
 	res.Err = p.Package(info, sink)
+	sink.MarkReturned()
+	res.Sink = sink
 	res.Bytes = sink.Bytes()
 	res.Trace = sink.Trace
 	res.Fired = sink.Fired
